@@ -40,7 +40,9 @@ ops (numbers exact: "num/den" or JSON integers):
  `upper` {grid} ↦ [nat]                                  `_get_upper_indices`
  `which` {grid, k} ↦ [nat]                               `which_row_is_k`
  `quatdist` {pi, theta} ↦ rat                            `np.where(theta > pi/2, pi - theta, theta)`
- `area`  {pts: [[bits,bits,bits],…]} ↦ bits | AssertionError   Float model of the tail of `_calculate_borders`
+ `hyp`   {grid, A} ↦ {cover, sep, hup, square, sym, anti, diag}   the hypotheses of `half_matrix_symm` /
+          `fold_diag_empty`, decided by the model's own validators
+ `area`  {rank, pts: [[bits,bits,bits],…]} ↦ bits | AssertionError   Float model of the tail of `_calculate_borders`
           (IEEE-754 bit patterns in and out; modelled, not verified)
 -/
 def handle (op : String) (j : Json) : R Json := do
@@ -70,12 +72,21 @@ def handle (op : String) (j : Json) : R Json := do
     let pi ← asRat (← getField j "pi")
     let th ← asRat (← getField j "theta")
     pure (ratJ (quatDist pi th))
+  | "hyp" =>
+    let grid ← asRows (← getField j "grid")
+    let A ← asMatrix (← getField j "A")
+    let N := grid.length / 2
+    let b := fun (x : Bool) => Json.bool x
+    pure (Json.mkObj [("cover", b (coverB grid)), ("sep", b (sepB grid)), ("hup", b (hupB (grid.take N))),
+                      ("square", b (squareB (2 * N) A)), ("sym", b (symB (2 * N) A)), ("anti", b (antiB N A)),
+                      ("diag", b (diagB N A))])
   | "area" =>
     let pts ← asList (fun r => do
       match (← asArr r) with
       | [a, b, c] => pure ((← asFloatBits a), (← asFloatBits b), (← asFloatBits c))
       | _ => throw "bad point") (← getField j "pts")
-    pure (floatBitsJ (← liftE (Molgri.FaceArea.borderArea pts)))
+    let rank ← asNat (← getField j "rank")
+    pure (floatBitsJ (← liftE (Molgri.FaceArea.borderAreaChecked rank 4 pts)))
   | _ => throw s!"unknown op {op}"
 
 end Molgri.Drv.C04
